@@ -714,3 +714,19 @@ Proof.
   unfold subn_output. destruct (valid (subn_candidate valid src items)); cbn [negb]; [|left; reflexivity].
   destruct (valid (restore src (subn_candidate valid src items))); cbn [negb]; [right|left]; reflexivity.
 Qed.
+
+(* T14.5 (text), without side condition: the ranges of ignore_lines always lie inside the text *)
+Theorem ignored_lines_survive (valid : text -> bool) (src : text) (items : list (range * text)) :
+  Forall (fun it => range_ok (length src) (fst it)) items ->
+  forall l, In l (ignore_lines src) ->
+  exists pre post, subn_candidate valid src items = pre ++ slice src l ++ post.
+Proof.
+  intros Hok l Hl. apply ignored_line_verbatim; [exact Hok | exact Hl | apply ignore_lines_ok; exact Hl].
+Qed.
+
+(* the scheduled rewrites are pairwise non-overlapping (instance of T10.2) *)
+Theorem subn_schedule_disjoint (T : Type) (teqb : T -> T -> bool) (tcmp : T -> T -> comparison)
+        (ilines : list range) (items : list (range * T)) :
+  ForallOrdPairs (fun a b => overlaps (rrng (snd a)) (rrng (snd b)) = false)
+                 (subn_schedule T teqb tcmp ilines items).
+Proof. apply schedule_disjoint. Qed.
